@@ -167,7 +167,9 @@ _NO_NESTED_VARIANTS = False
 
 
 def _variants_task(path):
-    return path, _compute_variants(path, 3)
+    # in a child of the pool worker: the derivation edits objects (and with them the known shared Set-Cookie defaults),
+    # which must not carry over to the next class this worker derives
+    return path, core.call_isolated(_compute_variants, path, 3)
 
 
 def warm_variants():
